@@ -9,6 +9,9 @@ package main
 
 import (
 	"fmt"
+	"runtime"
+	"strings"
+	"time"
 
 	"github.com/ozanh/ugo"
 )
@@ -103,6 +106,67 @@ func init() {
 				}
 			}
 		}
+		// a pooled child VM that was running a function when its root VM was aborted goes back to the pool when the
+		// Invoker is released: the next pooled Invoker (on another root VM) that gets it calls its function like any
+		// other - the call from Go still equals the call in the script.  One P, so that the pool hands the VM back.
+		prevProcs := runtime.GOMAXPROCS(1)
+		for round := 0; round < 3; round++ {
+			n++
+			what := ""
+			func() {
+				bc1, err := ugo.Compile([]byte("global (cb, mark)\nf := func() { mark(); for {} }\ncb(f)\nreturn 1"), ugo.CompilerOptions{})
+				if err != nil {
+					what = err.Error()
+					return
+				}
+				reached := make(chan struct{}, 1)
+				mark := &ugo.Function{Name: "mark", Value: func(a ...ugo.Object) (ugo.Object, error) { reached <- struct{}{}; return ugo.Undefined, nil }}
+				vm1 := ugo.NewVM(bc1)
+				done := make(chan error, 1)
+				go func() {
+					_, err := vm1.Run(ugo.Map{"cb": hostCall(true), "mark": mark})
+					done <- err
+				}()
+				select {
+				case <-reached:
+				case <-time.After(5 * time.Second):
+					what = "harness: the first script never reached its callback"
+					return
+				}
+				vm1.Abort()
+				select {
+				case <-done:
+				case <-time.After(5 * time.Second):
+					for i := 0; i < 2000; i++ {
+						vm1.Abort()
+						time.Sleep(time.Millisecond)
+					}
+					what = "harness: the aborted run did not end (C09's business)"
+					return
+				}
+				bc2, err := ugo.Compile([]byte("global cb\ng := func(v) { return v + 1 }\nreturn [g(1), cb(g, 1), cb(g, 2)]"), ugo.CompilerOptions{})
+				if err != nil {
+					what = err.Error()
+					return
+				}
+				for k := 0; k < 4 && what == ""; k++ {
+					ret, err := ugo.NewVM(bc2).Run(ugo.Map{"cb": hostCall(true)})
+					if err != nil || ret.String() != "[2, 2, 3]" {
+						what = fmt.Sprintf("after another VM was aborted inside a pooled callback: [g(1), cb(g, 1), cb(g, 2)] = %v / %v, expected [2, 2, 3] (the call from Go equals the call in the script)", ret, err)
+					}
+				}
+			}()
+			if strings.HasPrefix(what, "harness:") {
+				out.put(N{"harness": what})
+				continue
+			}
+			r := N{"pooled": true, "between": "abort-of-another-vm", "warm": round, "ok": what == "", "src": "global cb\ng := func(v) { return v + 1 }\nreturn [g(1), cb(g, 1), cb(g, 2)]"}
+			if what != "" {
+				r["what"] = what
+			}
+			out.put(r)
+		}
+		runtime.GOMAXPROCS(prevProcs)
 		out.put(N{"done": true, "n": n})
 		return nil
 	}
